@@ -220,6 +220,32 @@ structure Safe (st : State) : Prop where
   factories : ∀ nf ∈ st.factories, nf.2.Safe st.store
   syn : Xform.SynEnv.RatOK st.syn
 
+/-- a session: texts evaluated one after another on the same interpreter, each with its own fuel;
+the outcomes in order and the final state -/
+def run (st : State) : List (Nat × List Char) → List (Except SErr (Option Value)) × State
+  | [] => ([], st)
+  | (fuel, text) :: rest =>
+    let (r, st') := evalText fuel st text
+    let (rs, st'') := run st' rest
+    (r :: rs, st'')
+
 end Interp
+
+/-- The panic sites of the model: every `Err.panic` label that occurs in `RuschmModel/*.lean`
+(`"base.rs unwrap: "` stands for the family `"base.rs unwrap: " ++ name`, one per native procedure,
+plus `sub/div` and `max/min`). -/
+def panicSites : List String :=
+  ["exact_ratio: zero denominator", "floor: zero denominator", "ceiling: zero denominator",
+   "sub: no argument", "div: no argument", "max: no argument", "min: no argument",
+   "base.rs unwrap: ", "applyPure: apply", "dangling vector",
+   "apply_scheme_procedure: arg_iter.next().unwrap()", "spread_apply_arguments: unwrap",
+   "apply_procedure: not a procedure", "apply_scheme_procedure: empty body",
+   "macros.rs get_mut unwrap"]
+
+/-- no evaluation of any text with any fuel from a safe interpreter state ends in a panic at
+`site` (or at any site that `site` is a prefix of) -/
+def UnreachableFromSafe (site : String) : Prop :=
+  ∀ (st : Interp.State) (fuel : Nat) (text : List Char) (s : String) (l : Loc), Interp.Safe st →
+    site.isPrefixOf s = true → (Interp.evalText fuel st text).1 ≠ .error (.panic s, l)
 
 end Ruschm
